@@ -196,7 +196,7 @@ func (r *Run) check(only, dump string) int {
 
 func propListed(list, p string) bool {
 	for _, x := range strings.FieldsFunc(list, func(c rune) bool { return c == ',' || c == ' ' }) {
-		if x == p {
+		if x == p || x == "all" {
 			return true
 		}
 	}
